@@ -88,13 +88,18 @@ type vRWC struct {
 	accepted int // bytes accepted in total
 	writes   int
 	fail     bool // writes may fail from now on
+	failed   bool // a Write of the frame being sent has failed
 }
 
 func (w *vRWC) Read(p []byte) (int, error) { return 0, vFault{} }
 func (w *vRWC) Close() error               { return nil }
 func (w *vRWC) Write(b []byte) (int, error) {
+	// once a Write of a frame has failed the rest of that frame must not be written: the peer would
+	// read it as the continuation of something that never arrived
+	vAssert(!w.failed, "C09.torn.nothing-written-after-a-failed-write-of-the-same-frame")
 	w.writes++
 	if w.fail && vNondetBool() {
+		w.failed = true
 		// a failing write accepts none or some of the bytes
 		n := 0
 		if len(b) > 1 && vNondetBool() {
@@ -124,6 +129,8 @@ func vTorn(packed bool) {
 	serr := send()
 	release()
 	vReach("sent")
+	vAssert(!w.failed || serr != nil, "C09.torn.failed-write-fails-the-send")
+	w.failed = false
 	frameBytes := w.accepted
 	if serr == nil {
 		vAssert(frameBytes > 0, "C09.torn.successful-send-wrote-the-frame")
